@@ -93,6 +93,91 @@ theorem parseRows_clean_iff {ρ α : Type} (f : ρ → RowRes α) :
       obtain ⟨o, ho⟩ := (ih (i + 1)).2 (fun x hx => hall x (List.mem_cons_of_mem _ hx))
       exact ⟨a :: o, by unfold parseRows; simp [ha, ho]⟩
 
+/-- the accepted rows, in order -/
+def accepted {ρ α : Type} (f : ρ → RowRes α) (rows : List ρ) : List α :=
+  rows.filterMap fun r => match f r with
+    | .ok a => some a
+    | _ => none
+
+/-- library mode (a critical does not stop the run): whatever is reported, the outputs are
+exactly the individually accepted rows, in row order — nothing is reordered, duplicated or
+taken from another row -/
+theorem parseRows_out {ρ α : Type} (f : ρ → RowRes α) :
+    ∀ (rows : List ρ) (i : Nat) (out : List α) (cs : List (Nat × Crit)),
+      parseRows f i rows = .ok (out, cs) → out = accepted f rows := by
+  intro rows
+  induction rows with
+  | nil => intro i out cs h; simp [parseRows] at h; simp [accepted, h.1]
+  | cons r rs ih =>
+    intro i out cs h
+    unfold parseRows at h
+    cases hf : f r with
+    | exc e => simp [hf] at h
+    | crit c =>
+      simp only [hf] at h
+      cases hrec : parseRows f (i + 1) rs with
+      | error e => simp [hrec] at h
+      | ok p =>
+        obtain ⟨o, cs'⟩ := p
+        simp [hrec] at h
+        have := ih (i + 1) o cs' hrec
+        simp [accepted, hf, ← h.1, this]
+    | ok a =>
+      simp only [hf] at h
+      cases hrec : parseRows f (i + 1) rs with
+      | error e => simp [hrec] at h
+      | ok p =>
+        obtain ⟨o, cs'⟩ := p
+        simp [hrec] at h
+        have := ih (i + 1) o cs' hrec
+        simp [accepted, hf, ← h.1, this]
+
+/-- … and the criticals name exactly the rows that produced them, with increasing indices -/
+theorem parseRows_crit_bound {ρ α : Type} (f : ρ → RowRes α) :
+    ∀ (rows : List ρ) (i : Nat) (out : List α) (cs : List (Nat × Crit)),
+      parseRows f i rows = .ok (out, cs) →
+      ∀ p ∈ cs, i ≤ p.1 ∧ ∃ (h : p.1 - i < rows.length), f rows[p.1 - i] = .crit p.2 := by
+  intro rows
+  induction rows with
+  | nil => intro i out cs h; simp [parseRows] at h; simp [h.2]
+  | cons r rs ih =>
+    intro i out cs h
+    unfold parseRows at h
+    cases hf : f r with
+    | exc e => simp [hf] at h
+    | crit c =>
+      simp only [hf] at h
+      cases hrec : parseRows f (i + 1) rs with
+      | error e => simp [hrec] at h
+      | ok p =>
+        obtain ⟨o, cs'⟩ := p
+        simp [hrec] at h
+        have hih := ih (i + 1) o cs' hrec
+        intro p hp
+        rw [← h.2] at hp
+        rcases List.mem_cons.1 hp with rfl | hp
+        · exact ⟨Nat.le_refl _, by simp, by simpa using hf⟩
+        · obtain ⟨h1, h2, h3⟩ := hih p hp
+          have e : p.1 - i = (p.1 - (i + 1)) + 1 := by omega
+          refine ⟨by omega, by simp; omega, ?_⟩
+          simp only [e, List.getElem_cons_succ]
+          exact h3
+    | ok a =>
+      simp only [hf] at h
+      cases hrec : parseRows f (i + 1) rs with
+      | error e => simp [hrec] at h
+      | ok p =>
+        obtain ⟨o, cs'⟩ := p
+        simp [hrec] at h
+        have hih := ih (i + 1) o cs' hrec
+        intro p hp
+        rw [← h.2] at hp
+        obtain ⟨h1, h2, h3⟩ := hih p hp
+        have e : p.1 - i = (p.1 - (i + 1)) + 1 := by omega
+        refine ⟨by omega, by simp; omega, ?_⟩
+        simp only [e, List.getElem_cons_succ]
+        exact h3
+
 theorem not_mem_replace1 {c : Char} {r : Str} (hr : c ∉ r) (s : Str) : c ∉ replace1 c r s := by
   unfold replace1
   intro h
